@@ -77,7 +77,7 @@
 #include <fcppt/enum/make_range.hpp>
 #include <fcppt/enum/make_range_start.hpp>
 #include <fcppt/enum/make_range_start_end.hpp>
-#include <fcppt/iterator/range.hpp>
+#include <fcppt/iterator/range_impl.hpp>
 #include <fcppt/mpl/list/object.hpp>
 #include <fcppt/optional/object.hpp>
 #include <fcppt/optional/reference.hpp>
@@ -1649,7 +1649,8 @@ void chk_map_iteration(seq const &s)
 // ================================================================== split_string / join_strings
 // strings over an alphabet of three characters, the last one being the delimiter
 template <class Str, class F>
-void for_strings(std::string const &entry, char const *kn, unsigned maxlen, Str const &alphabet, F const &f)
+void for_strings(std::string const &entry, char const *kn, unsigned maxlen,
+                 std::array<typename Str::value_type, 3> const &alphabet, F const &f)
 {
   if (!vf::entry_enabled(entry))
     return;
@@ -2192,7 +2193,8 @@ void chk_array_n(seq const &s)
       lib();
       auto const o3 = fcppt::array::from_range<KK>(std::vector<int>(v));
       lib();
-      auto const o4 = fcppt::array::from_range<KK>(std::as_const(a));
+      holder<SA<N>> const hs(s);
+      auto const o4 = fcppt::array::from_range<KK>(hs.c);
       bool const want = KK == N;
       if (want)
         VF_COUNT("array::from_range/size-matches");
@@ -2203,7 +2205,7 @@ void chk_array_n(seq const &s)
       expect(o1.has_value(), want, "array::from_range", "vector", "presence", par("size", KK));
       expect(o2.has_value(), want, "array::from_range", "deque", "presence", par("size", KK));
       expect(o3.has_value(), want, "array::from_range", "vector-rvalue", "presence", par("size", KK));
-      expect(o4.has_value(), want, "array::from_range", "fcppt::array", "presence", par("size", KK));
+      expect(o4.has_value(), want, "array::from_range", "std::array", "presence", par("size", KK));
       if (want)
       {
         if (o1.has_value())
@@ -2213,7 +2215,7 @@ void chk_array_n(seq const &s)
         if (o3.has_value())
           expect(to_seq(o3.get_unsafe()), s, "array::from_range", "vector-rvalue", "elements");
         if (o4.has_value())
-          expect(to_seq(o4.get_unsafe()), s, "array::from_range", "fcppt::array", "elements");
+          expect(to_seq(o4.get_unsafe()), s, "array::from_range", "std::array", "elements");
       }
     };
     (one_k(std::integral_constant<std::size_t, K>{}), ...);
@@ -2365,7 +2367,7 @@ void chk_tuple_n(seq const &s)
       order.push_back(static_cast<int>(I));
       return static_cast<typename tt<I>::type>(s[I]);
     });
-    auto const ap = fcppt::tuple::apply([](auto a, auto b) { return static_cast<int>(a) * 3 + static_cast<int>(b); }, t, ti);
+    auto const ap = fcppt::tuple::apply([](auto a, auto b) { return static_cast<int>(a) * 3 + static_cast<int>(b); }, T(t), T(ti));
     seq want;
     for (int e : s)
       want.push_back(e * 3 + e);
@@ -2416,3 +2418,389 @@ void chk_tuple_concat(seq const &s)
   finish();
 }
 } // namespace
+
+// ================================================================== registry, cut into slices
+#if VF_IN_SLICE(0)
+void vf_slice_0()
+{
+  run_everything("algorithm/loop_break", LIFT(chk_loop_break));
+  run_everything("algorithm/loop", LIFT(chk_loop));
+}
+#endif
+#if VF_IN_SLICE(1)
+void vf_slice_1()
+{
+  run_everything("algorithm/fold", LIFT(chk_fold));
+  run_everything("algorithm/fold_break", LIFT(chk_fold_break));
+}
+#endif
+#if VF_IN_SLICE(2)
+void vf_slice_2()
+{
+  run_everything("algorithm/all_of", LIFT(chk_all_of));
+  run_everything("algorithm/contains_if", LIFT(chk_contains_if));
+  run(int_dyn{}, "algorithm/contains", L(), LIFT(chk_contains));
+  run_statics("algorithm/contains", LIFT(chk_contains));
+  run_ranges("algorithm/contains", LIFT(chk_contains));
+}
+#endif
+#if VF_IN_SLICE(3)
+void vf_slice_3()
+{
+  run(int_dyn{}, "algorithm/find_opt", L(), LIFT(chk_find_opt));
+  run_statics("algorithm/find_opt", LIFT(chk_find_opt));
+  run_ranges("algorithm/find_opt", LIFT(chk_find_opt));
+  run(kinds<k_vec, k_list, k_deque, k_flist, k_set, k_mset, k_map>{}, "algorithm/find_if_opt", L(), LIFT(chk_find_if_opt));
+  run_statics("algorithm/find_if_opt", LIFT(chk_find_if_opt));
+  run_ranges("algorithm/find_if_opt", LIFT(chk_find_if_opt));
+}
+#endif
+#if VF_IN_SLICE(4)
+void vf_slice_4()
+{
+  unsigned const l = vf::tier(5U, 6U); // 64 partial maps per sequence
+  run(kinds<k_vec, k_list, k_deque, k_flist, k_set, k_mset, k_map, input_range>{}, "algorithm/find_by_opt", l, LIFT(chk_find_by_opt));
+  run_statics("algorithm/find_by_opt", LIFT(chk_find_by_opt));
+  run_ranges("algorithm/find_by_opt", LIFT(chk_find_by_opt));
+  run(kinds<k_vec, k_deque>{}, "algorithm/index_of", L(), LIFT(chk_index_of));
+  run_statics("algorithm/index_of", LIFT(chk_index_of));
+}
+#endif
+#if VF_IN_SLICE(5)
+void vf_slice_5()
+{
+  run(kinds<k_vec, k_list, k_deque, k_set, k_mset>{}, "algorithm/binary_search,equal_range", L(), LIFT(chk_sorted_search));
+  run_statics("algorithm/binary_search,equal_range", LIFT(chk_sorted_search));
+  run(int_dyn{}, "observed/algorithm/equal", 5, LIFT(obs_equal));
+}
+#endif
+#if VF_IN_SLICE(6)
+void vf_slice_6()
+{
+  run_everything("algorithm/map->vector", [](char const *kn, auto &c, seq const &r) { chk_map_to<std::vector<int>>(kn, c, r); });
+}
+#endif
+#if VF_IN_SLICE(7)
+void vf_slice_7()
+{
+  run(all_dyn{}, "algorithm/map->list", L(), [](char const *kn, auto &c, seq const &r) { chk_map_to<std::list<int>>(kn, c, r); });
+  run(all_dyn{}, "algorithm/map->set", L(), [](char const *kn, auto &c, seq const &r) { chk_map_to<std::set<int>>(kn, c, r); });
+  run(kinds<k_vec, k_flist, input_range>{}, "algorithm/map->deque", L(), [](char const *kn, auto &c, seq const &r) { chk_map_to<std::deque<int>>(kn, c, r); });
+  run(kinds<k_vec, k_flist, input_range>{}, "algorithm/map->multiset", L(), [](char const *kn, auto &c, seq const &r) { chk_map_to<std::multiset<int>>(kn, c, r); });
+}
+#endif
+#if VF_IN_SLICE(8)
+void vf_slice_8()
+{
+  unsigned const l = vf::tier(5U, 6U); // 64 partial maps per sequence
+  auto to_vec = [](char const *kn, auto &c, seq const &r) { chk_map_optional_to<std::vector<int>>(kn, c, r); };
+  run(all_dyn{}, "algorithm/map_optional->vector", l, to_vec);
+  run_statics("algorithm/map_optional->vector", to_vec);
+  run_ranges("algorithm/map_optional->vector", to_vec);
+  run(kinds<k_vec, k_list, input_range>{}, "algorithm/map_optional->set", l, [](char const *kn, auto &c, seq const &r) { chk_map_optional_to<std::set<int>>(kn, c, r); });
+  run(kinds<k_vec, k_set, input_range>{}, "algorithm/map_optional->list", l, [](char const *kn, auto &c, seq const &r) { chk_map_optional_to<std::list<int>>(kn, c, r); });
+}
+#endif
+#if VF_IN_SLICE(9)
+void vf_slice_9()
+{
+  auto to_vec = [](char const *kn, auto &c, seq const &r) { chk_map_concat_to<std::vector<int>>(kn, c, r); };
+  run(all_dyn{}, "algorithm/map_concat->vector", L(), to_vec);
+  run_statics("algorithm/map_concat->vector", to_vec);
+  run_ranges("algorithm/map_concat->vector", to_vec);
+  run(kinds<k_vec, k_list, input_range>{}, "algorithm/map_concat->list", L(), [](char const *kn, auto &c, seq const &r) { chk_map_concat_to<std::list<int>>(kn, c, r); });
+  run(kinds<k_vec, k_mset, input_range>{}, "algorithm/map_concat->set", L(), [](char const *kn, auto &c, seq const &r) { chk_map_concat_to<std::set<int>>(kn, c, r); });
+  for_seqs("algorithm/generate_n", L(), [](seq const &s) {
+    chk_generate_n<std::vector<int>>("->vector", s);
+    chk_generate_n<std::list<int>>("->list", s);
+    chk_generate_n<std::deque<int>>("->deque", s);
+    chk_generate_n<std::set<int>>("->set", s);
+    chk_generate_n<std::multiset<int>>("->multiset", s);
+  });
+  if (vf::entry_enabled("algorithm/repeat"))
+  {
+    vf::set_entry("algorithm/repeat");
+    std::uint64_t idx = 0;
+    for (long long n = -3; n <= 9; ++n)
+    {
+      if (!vf::mine(idx++))
+        continue;
+      chk_repeat<int>("int", n);
+      chk_repeat<long>("long", n);
+      chk_repeat<short>("short", n);
+      chk_repeat<signed char>("signed char", n);
+      chk_repeat<long long>("long long", n);
+      if (n >= 0)
+      {
+        chk_repeat<unsigned>("unsigned", n);
+        chk_repeat<std::size_t>("size_t", n);
+        chk_repeat<unsigned char>("unsigned char", n);
+        chk_repeat<unsigned short>("unsigned short", n);
+      }
+    }
+    if (vf::mine(idx++))
+    {
+      chk_repeat<signed char>("signed char", 127);
+      chk_repeat<signed char>("signed char", -128);
+      chk_repeat<unsigned char>("unsigned char", 255);
+      chk_repeat<short>("short", 32767);
+      chk_repeat<unsigned short>("unsigned short", 65535);
+      chk_repeat<int>("int", 100000);
+    }
+  }
+}
+#endif
+#if VF_IN_SLICE(10)
+void vf_slice_10()
+{
+  run(seq_rw{}, "algorithm/remove,remove_if", L(), LIFT(chk_remove));
+  unsigned const obs = vf::tier(3U, 4U);
+  run(seq_rw{}, "algorithm/unique,unique_if", L(), [obs](char const *kn, auto &c, seq const &r) { chk_unique(kn, c, r, obs); });
+  run(seq_rw{}, "algorithm/reverse", L(), LIFT(chk_reverse));
+  run_statics("algorithm/reverse", LIFT(chk_reverse));
+}
+#endif
+#if VF_IN_SLICE(11)
+void vf_slice_11()
+{
+  run(seq_rw{}, "algorithm/sequence_iteration", L(), LIFT(chk_sequence_iteration));
+  for_seqs("algorithm/map_iteration", L(), [](seq const &s) {
+    chk_map_iteration<std::map<int, int>>(s);
+    chk_map_iteration<std::multimap<int, int>>(s);
+    chk_map_iteration<std::unordered_map<int, int>>(s);
+  });
+}
+#endif
+#if VF_IN_SLICE(12)
+void vf_slice_12()
+{
+  unsigned const sl = vf::tier(7U, 8U);
+  for_strings<std::string>("algorithm/split_string,join_strings", "std::string", sl, {'a', 'b', ','},
+              [](seq const &code, std::string const &s) { chk_split("std::string", code, s, ',', true); });
+  for_strings<std::wstring>("algorithm/split_string,join_strings", "std::wstring", sl, {L'x', L'y', L'\n'},
+              [](seq const &code, std::wstring const &s) { chk_split("std::wstring", code, s, L'\n', true); });
+  for_strings<std::vector<int>>("algorithm/split_string", "vector<int>", 6, {0, 1, 2},
+              [](seq const &code, std::vector<int> const &s) { chk_split("vector<int>", code, s, 2, false); });
+  for_strings<std::list<char>>("algorithm/split_string", "list<char>", 6, {'a', 'b', '/'},
+              [](seq const &code, std::list<char> const &s) { chk_split("list<char>", code, s, '/', false); });
+  // join_strings on arbitrary field lists (fields may contain the delimiter), delimiters of length 0, 1, 2
+  if (vf::entry_enabled("algorithm/join_strings"))
+  {
+    vf::set_entry("algorithm/join_strings");
+    static char const *const F[4] = {"", "a", "b,", ","};
+    static char const *const D[3] = {"", ",", "ab"};
+    std::uint64_t idx = 0;
+    unsigned const maxn = vf::tier(4U, 5U);
+    for (unsigned n = 0; n <= maxn; ++n)
+      for (unsigned code = 0; code < (1U << (2 * n)); ++code)
+      {
+        if (!vf::mine(idx++))
+          continue;
+        std::vector<std::string> fields;
+        for (unsigned i = 0; i < n; ++i)
+          fields.emplace_back(F[(code >> (2 * i)) & 3U]);
+        if (!vf::begin_case("fields=%s", show(fields).c_str()))
+          continue;
+        vf::sample_case(1);
+        unsigned const nc[2] = {n, code};
+        vf::note_distinct(case_hash("fields", nc, sizeof nc));
+        g_calls = 0;
+        if (n == 0)
+          VF_COUNT("join_strings/no-fields");
+        else if (n == 1)
+          VF_COUNT("join_strings/one-field");
+        else
+          VF_COUNT("join_strings/several-fields");
+        for (char const *d : D)
+        {
+          chk_join_strings<std::vector<std::string>>("vector<string>", fields, d);
+          chk_join_strings<std::list<std::string>>("list<string>", fields, d);
+          chk_join_strings<std::deque<std::string>>("deque<string>", fields, d);
+          chk_join_strings<std::multiset<std::string>>("multiset<string>", fields, d);
+        }
+        finish();
+      }
+  }
+}
+#endif
+#if VF_IN_SLICE(13)
+void vf_slice_13()
+{
+  run(seq_rw{}, "container/join", L(), LIFT(chk_container_join));
+  for_seqs("container/join(associative)", L(), [](seq const &s) {
+    chk_container_join_assoc<std::set<int>>("set", s);
+    chk_container_join_assoc<std::multiset<int>>("multiset", s);
+    chk_container_join_assoc<std::map<int, int>>("map", s);
+  });
+  run(kinds<k_vec, k_deque>{}, "container/at_optional", L(), LIFT(chk_at_optional));
+  run_statics("container/at_optional", LIFT(chk_at_optional));
+}
+#endif
+#if VF_IN_SLICE(14)
+void vf_slice_14()
+{
+  for_seqs("container/find_opt_mapped,get_or_insert", L(), [](seq const &s) {
+    chk_map_lookup<std::map<int, int>>(s);
+    chk_map_lookup<std::unordered_map<int, int>>(s);
+  });
+  for_seqs("container/key_set", L(), [](seq const &s) {
+    chk_key_set<std::map<int, int>, std::set<int>>("map->set", s);
+    chk_key_set<std::multimap<int, int>, std::set<int>>("multimap->set", s);
+    chk_key_set<std::unordered_map<int, int>, std::unordered_set<int>>("unordered_map->unordered_set", s);
+    chk_key_set<std::map<int, int>, std::multiset<int>>("map->multiset", s);
+  });
+  for_seqs("container/map_values_copy,map_values_ref", L(), [](seq const &s) {
+    chk_map_values<std::map<int, int>>(s);
+    chk_map_values<std::multimap<int, int>>(s);
+    chk_map_values<std::unordered_map<int, int>>(s);
+  });
+  chk_set_ops(vf::tier(5U, 6U));
+  // observed neighbours
+  for_seqs("observed/container,range", 4, [](seq const &s) {
+    if (!start("vector", s))
+      return;
+    std::vector<int> v(s.begin(), s.end());
+    auto const f = fcppt::container::maybe_front(v);
+    auto const b = fcppt::container::maybe_back(v);
+    bool ok = f.has_value() == !s.empty() && b.has_value() == !s.empty();
+    if (ok && !s.empty())
+      ok = &f.get_unsafe().get() == &v.front() && &b.get_unsafe().get() == &v.back();
+    ok = ok && fcppt::range::empty(v) == s.empty() && fcppt::range::singular(v) == (s.size() == 1) &&
+         fcppt::range::size(v) == s.size();
+    VF_COUNT("observed/container,range/calls");
+    if (!ok)
+      vf::observation("maybe_front/maybe_back/range::empty/singular/size differ from the expectation on " + show(s));
+    finish();
+  });
+}
+#endif
+#if VF_IN_SLICE(15)
+void vf_slice_15()
+{
+  for_seqs("array/init,map,push_back,from_range", static_max, [](seq const &s) {
+    [&]<std::size_t... N>(std::index_sequence<N...>) { (chk_array_n<N>(s), ...); }
+    (std::make_index_sequence<static_max + 1>{});
+  });
+}
+#endif
+#if VF_IN_SLICE(16)
+void vf_slice_16()
+{
+  // all cuts of sequences up to length 5 (and a few of length 6)
+  for_seqs("array/append,join", static_max, [](seq const &s) {
+    [&]<std::size_t... N>(std::index_sequence<N...>)
+    {
+      auto cuts = [&]<std::size_t T>(std::integral_constant<std::size_t, T>) {
+        [&]<std::size_t... K>(std::index_sequence<K...>) { (chk_array_append<K, T - K>(s), ...); }
+        (std::make_index_sequence<T + 1>{});
+      };
+      (cuts(std::integral_constant<std::size_t, N>{}), ...);
+    }
+    (std::make_index_sequence<6>{});
+    chk_array_append<3, 3>(s);
+    chk_array_append<0, 6>(s);
+    chk_array_append<6, 0>(s);
+    chk_array_append<1, 5>(s);
+  });
+}
+#endif
+#if VF_IN_SLICE(17)
+void vf_slice_17()
+{
+  for_seqs("tuple/map,push_back", tuple_max, [](seq const &s) {
+    [&]<std::size_t... N>(std::index_sequence<N...>) { (chk_tuple_n<N>(s), ...); }
+    (std::make_index_sequence<tuple_max + 1>{});
+  });
+  for_seqs("tuple/concat", tuple_max, [](seq const &s) {
+    [&]<std::size_t... N>(std::index_sequence<N...>)
+    {
+      auto cuts = [&]<std::size_t T>(std::integral_constant<std::size_t, T>) {
+        [&]<std::size_t... K>(std::index_sequence<K...>) { (chk_tuple_concat<K, T - K>(s), ...); }
+        (std::make_index_sequence<T + 1>{});
+      };
+      (cuts(std::integral_constant<std::size_t, N>{}), ...);
+    }
+    (std::make_index_sequence<tuple_max + 1>{});
+  });
+}
+#endif
+
+#if VF_SLICE < 0
+#define VF_NUM_SLICES 18
+void vf_slice_0();
+void vf_slice_1();
+void vf_slice_2();
+void vf_slice_3();
+void vf_slice_4();
+void vf_slice_5();
+void vf_slice_6();
+void vf_slice_7();
+void vf_slice_8();
+void vf_slice_9();
+void vf_slice_10();
+void vf_slice_11();
+void vf_slice_12();
+void vf_slice_13();
+void vf_slice_14();
+void vf_slice_15();
+void vf_slice_16();
+void vf_slice_17();
+namespace
+{
+void body()
+{
+  for (char const *b :
+       {// every function the statement enumerates must have been judged at least once
+        "judged/map", "judged/map_optional", "judged/map_concat", "judged/fold", "judged/fold_break", "judged/loop",
+        "judged/loop_break", "judged/all_of", "judged/contains", "judged/contains_if", "judged/find_opt",
+        "judged/find_if_opt", "judged/find_by_opt", "judged/index_of", "judged/binary_search", "judged/equal_range",
+        "judged/remove", "judged/remove_if", "judged/unique", "judged/unique_if", "judged/reverse", "judged/repeat",
+        "judged/generate_n", "judged/split_string", "judged/join_strings", "judged/map_iteration",
+        "judged/sequence_iteration", "judged/join", "judged/at_optional", "judged/find_opt_mapped",
+        "judged/get_or_insert", "judged/key_set", "judged/map_values", "judged/set_union", "judged/set_intersection",
+        "judged/set_difference", "judged/array::map", "judged/array::join", "judged/array::append",
+        "judged/array::push_back", "judged/array::init", "judged/array::from_range", "judged/tuple::map",
+        "judged/tuple::concat", "judged/tuple::push_back",
+        // the boundary shapes the property is about
+        "shape/empty-input", "shape/non-empty-input", "shape/empty-range", "shape/int_range-end-before-begin",
+        "loop_break/stopped-before-end", "loop_break/ran-to-end", "fold_break/stopped-before-end",
+        "fold_break/stopped-at-last", "fold_break/ran-to-end", "all_of/true", "all_of/false", "contains_if/true",
+        "contains_if/false", "contains/true", "contains/false", "find_opt/absent", "find_opt/several-occurrences",
+        "find_if_opt/found", "find_if_opt/absent", "find_by_opt/found", "find_by_opt/absent", "index_of/absent",
+        "index_of/found-at-last", "index_of/found-before-last", "sorted_search/sorted-input",
+        "sorted_search/unsorted-but-partitioned-input", "binary_search/exactly-one", "binary_search/duplicates",
+        "binary_search/absent", "map_optional/all-dropped", "map_optional/all-kept", "map_optional/some-dropped",
+        "map_concat/all-parts-empty", "remove/nothing-removed", "remove/everything-removed", "remove/some-removed",
+        "unique/nothing-removed", "unique/something-removed", "repeat/zero-or-negative-count",
+        "sequence_iteration/last-element-erased", "sequence_iteration/all-erased", "map_iteration/last-element-erased",
+        "map_iteration/all-erased", "split_string/empty-string", "split_string/no-delimiter",
+        "split_string/delimiter-at-both-ends", "split_string/delimiter-at-end", "split_string/delimiter-at-start",
+        "split_string/consecutive-delimiters", "join_strings/inverse-of-split", "join_strings/no-fields",
+        "join_strings/one-field", "join/an-empty-operand", "join/non-empty-operands", "at_optional/in-range",
+        "at_optional/index-equals-size", "at_optional/beyond-size", "find_opt_mapped/found", "find_opt_mapped/absent",
+        "get_or_insert/found", "get_or_insert/inserted", "set_difference/proper-non-empty",
+        "set_ops/incomparable-operands", "array::from_range/size-matches", "array::from_range/source-longer",
+        "array::from_range/source-shorter", "array::append/an-empty-operand", "tuple::concat/an-empty-operand"})
+    vf::require_bucket(b);
+  vf_slice_0();
+  vf_slice_1();
+  vf_slice_2();
+  vf_slice_3();
+  vf_slice_4();
+  vf_slice_5();
+  vf_slice_6();
+  vf_slice_7();
+  vf_slice_8();
+  vf_slice_9();
+  vf_slice_10();
+  vf_slice_11();
+  vf_slice_12();
+  vf_slice_13();
+  vf_slice_14();
+  vf_slice_15();
+  vf_slice_16();
+  vf_slice_17();
+}
+}
+VF_MAIN(body)
+#endif
